@@ -12,7 +12,7 @@ ASSUMPTIONS = ["reference AES written from FIPS-197, self-tested against FIPS-19
 NSHARDS = {"quick": 16, "thorough": 32}
 BUDGET_S = {"quick": 200, "thorough": 1500}
 MIN_HITS = {
-    'quick': {"enc": 264, "dec": 264, "ctr_carry": 44, "bad_pad": 320, "bad_len": 2209},
+    'quick': {"enc": 542, "dec": 542, "ctr_carry": 44, "bad_pad": 320, "bad_len": 2209},
     'thorough': {"enc": 9196, "dec": 9196, "ctr_carry": 384, "bad_pad": 7680, "bad_len": 2016},
 }
 MODES = {"128cbc": 16, "256cbc": 32, "128ctr": 16, "256ctr": 32}
